@@ -14,11 +14,13 @@ Definition prod_run (w : list N) : option N := run N (d_start event_dfa) (d_delt
 (* (byte sequence, literal item index) for every literal key of the automaton *)
 Definition prod_literals : list (list N * N) := Eval vm_compute in literal_table event_dfa.
 
-Definition key_of_item (k : N) : kname * N := nth (N.to_nat k) event_item_keys (KEsc, 0).
-
-(* the library's naming table: sequence -> key *)
+(* the library's naming table: sequence -> key (an item without a regenerated name would be
+   dropped here and then fail the table theorems, never silently named Esc) *)
 Definition prod_key_table : list (list N * (kname * N)) :=
-  map (fun e => (fst e, key_of_item (snd e))) prod_literals.
+  flat_map (fun e => match nth_error event_item_keys (N.to_nat (snd e)) with
+                     | Some k => [(fst e, k)]
+                     | None => []
+                     end) prod_literals.
 
 (* a sequence is self-delimiting when the automaton is in a terminal accepting state after it *)
 Definition self_delimiting (w : list N) : bool :=
@@ -27,6 +29,7 @@ Definition self_delimiting (w : list N) : bool :=
   | None => false
   end.
 
-Definition prod_wf (r : report) : bool := wf decmode_all prod_key_table r && self_delimiting (print r).
+(* well-formedness is decided on the specification side only *)
+Definition prod_wf (r : report) : bool := wf decmode_all prod_key_table r.
 
 Definition prod_denote := denote prod_key_table.
